@@ -242,6 +242,22 @@ def p_x_index(c):
         ok = sut(FORECASTERS[name]().fit(y.copy(), X.copy(), c["fh"]).update, y_new.copy(), X_new.copy())
         out += expect_accepted(ok, "update_with_X:%s" % name)
         out += expect_rejected(sut(g.update, y_new.copy(), X_off), "X_index_differs:update:%s" % name)
+        # ... also when the parameters are not to be updated (nothing is refitted), through
+        # update_predict_single, and for exogenous data that is shorter or longer than the batch:
+        # a rejected batch leaves the cutoff where it was
+        X_short = X_new.iloc[:2]
+        X_long = pd.DataFrame({"a": [0.5, 1.0, 2.0, 3.0]}, index=gen.int_index(int(y_new.index[0]) - 1, 4, c["index_kind"]))
+        for tag, Xb in (("shifted", X_off), ("shorter", X_short), ("reaching_back", X_long)):
+            h = FORECASTERS[name]().fit(y.copy(), X.copy(), c["fh"])
+            c0 = h.cutoff
+            out += expect_rejected(sut(h.update, y_new.copy(), Xb.copy(), False), "X_index_differs(%s):update(update_params=False):%s" % (tag, name))
+            c1 = sut(lambda: h.cutoff)
+            if not out and (isinstance(c1, Raised) or c1 != c0):
+                out.append(D("state_changed_by_rejected_update:%s" % name, "cutoff %r -> %r after a rejected update (%s exogenous index)" % (c0, c1, tag)))
+        if name in ("ensemble", "multiplex"):
+            h = FORECASTERS[name]().fit(y.copy(), X.copy(), c["fh"])
+            out += expect_rejected(sut(h.update_predict_single, y_new.copy(), c["fh"], X_off.copy(), False),
+                                   "X_index_differs:update_predict_single(update_params=False):%s" % name)
     else:
         cv = SlidingWindowSplitter(fh=1, window_length=8)
         out += expect_accepted(sut(evaluate, FORECASTERS[name](), cv, y.copy(), X.copy()), "evaluate_with_X:%s" % name)
